@@ -54,7 +54,7 @@ UNIVERSES = {
     'empty': _flavoured({'__len__': lambda self: 0}),
     'all-equal': _flavoured({'__eq__': lambda self, other: True, '__hash__': lambda self: 7}),
 }
-IDS = [1, 2, 'k']           # 1 and 2 are the ids count(1) will produce, 'k' a non-int hashable
+IDS = [1, 2, ('k', 1)]      # 1 and 2 are the ids count(1) will produce; the third is a tuple (a hashable that is itself a collection of ids)
 
 
 class Model:
@@ -456,7 +456,7 @@ HARNESSES = {
 TIERS = {
     'quick': [
         ('world', dict(n_ids=2, n_types=3, build=True, steps=1)),
-        ('world', dict(n_ids=0, n_types=3, build=False, steps=2, ops_ids=2)),
+        ('world', dict(n_ids=0, n_types=2, build=False, steps=2, ops_ids=3)),
         ('world', dict(n_ids=1, n_types=4, build=True, steps=1, ops_ids=1, universe='diamond'),
          dict(required=['replace', 'remove', 'diamond-universe'])),
         ('world', dict(n_ids=1, n_types=3, build=True, steps=1, ops_ids=2, universe='falsy'),
@@ -494,7 +494,7 @@ RULE = ('one evaluation = one feasible path of the decision tree (distinct by co
         'or automatic id creation with components')
 BOUNDS = {
     'quick': 'types A,B(A),C(B); shape I: 2 ids x 3 types presence bits + dead bits, 1 operation; '
-             'shape H: 2 operations from the empty world; ops on ids 1,2,(k); diamond universe A,B(A),M(A),D(B,M) on one id, 1 operation',
+             'shape H: 2 operations from the empty world over types A,B and ids 1, 2 and the tuple id (\'k\', 1); fault: 2 ids x 3 types (FA, FB(FA), FN), one failing callback; diamond universe A,B(A),M(A),D(B,M) on one id, 1 operation',
     'thorough': 'types A,B(A),C(B),X; shape I: 3 ids x 3 types, 1 op; 2 ids x 4 types, 1 op; 2 ids x 3 types, 2 ops; diamond universe on 2 ids, 1 op; '
                 'shape H: 3 ops (ids 1,2,k; 4 types) and 4 ops (ids 1,2; 2 types)',
 }
